@@ -56,10 +56,13 @@ JudgeTick(o, i) ==
          "C03:URRs queried on a periodic tick differ from the URRs registered with that period"),
        V(\A x \in Rng(seids) : x.v = o.meta.seidle, "C03:periodic query for another session") }
 
-VersionOk(v) == \/ v[1] = 0 /\ v[2] = 9 /\ v[3] >= 5
+\* v = <<major, minor, patch>> or <<major, minor, patch, 1>> for a pre-release of that version (which orders just below it)
+VersionOk(v) == IF Len(v) = 4 /\ v[4] = 1
+                THEN (v[1] = 0 /\ v[2] = 9 /\ v[3] >= 6) \/ (v[1] = 0 /\ v[2] = 10 /\ v[3] = 0)
+                ELSE v[1] = 0 /\ v[2] = 9 /\ v[3] >= 5
 JudgeVersion(o, i) ==
   LET v == o.meta.vers[i] IN
-  V((o.steps[i].err = "") = (Len(v) = 3 /\ VersionOk(v)), "C20:gtp5g version window 0.9.5 <= v < 0.10.0 not enforced")
+  V((o.steps[i].err = "") = (Len(v) \in {3, 4} /\ VersionOk(v)), "C20:gtp5g version window 0.9.5 <= v < 0.10.0 not enforced")
 
 Judge(o) ==
   UNION {
